@@ -350,7 +350,7 @@ def _dict_mutation_nodes(g, dict_name: str) -> List[int]:
     return out
 
 
-def _preimage_problems(ctx, f, name: str) -> List[str]:
+def _preimage_problems(ctx, f, name: str, _depth: int = 0) -> List[str]:
     """Why local `name` of impl method `f` is NOT a value read from the instance dict before this method wrote to it."""
     fn = f.node
     params = f.params
@@ -368,6 +368,9 @@ def _preimage_problems(ctx, f, name: str) -> List[str]:
     for v, s in defs:
         if v is None:
             out.append(f"`{unparse(s)[:60]}` binds `{name}` in a way that is not understood")
+            continue
+        if isinstance(v, ast.Name) and v.id not in params and v.id != name and _depth < 3:
+            out.extend(_preimage_problems(ctx, f, v.id, _depth + 1))   # `old = previous`: judged where `previous` is read
             continue
         foreign = sorted(names_in(v) & (set(params) - allowed_params))
         if foreign:
@@ -1002,6 +1005,323 @@ def r5(ctx):
               f"_commit_all_states(... for state in {states_p})", f.loc)
 
 
+# ------------------------------------------------------------------------------------------ R6 (str2-p)
+COLL = "orm/collections.py"
+
+
+def _const_true(e) -> bool:
+    return isinstance(e, ast.Constant) and e.value is True
+
+
+def _capture_chain(ctx):
+    """How an instrumented collection reaches the committed-state capture, derived from the code:
+    impl hooks of _CollectionAttributeImpl that call `_modified_event(.., collection=True)`  <-  CollectionAdapter methods
+    that call `self.attr.<hook>`  <-  module functions of orm/collections.py that call `<coll>._sa_adapter.<method>`.
+    Returns (impl hook names, adapter method names, module helper names)."""
+    callee = ctx.func(f"{IS}._modified_event")
+    ctx.require(len(callee.params) >= 5, "_modified_event signature not understood")
+    p_coll = callee.params[4]
+    impl = ctx.index.cls(f"{ATTR}::_CollectionAttributeImpl")
+    impl_hooks = set()
+    for name, f in impl.methods.items():
+        for c in calls_in(f.node):
+            if isinstance(c.func, ast.Attribute) and c.func.attr == "_modified_event":
+                coll = c.args[3] if len(c.args) > 3 else kw(c, p_coll)
+                if _const_true(coll):
+                    impl_hooks.add(name)
+    adapter = ctx.index.cls(f"{COLL}::CollectionAdapter")
+    adapter_caps = set()
+    for name, f in adapter.methods.items():
+        for c in calls_in(f.node):
+            if isinstance(c.func, ast.Attribute) and c.func.attr in impl_hooks and dotted(c.func.value) == f"{f.params[0]}.attr":
+                adapter_caps.add(name)
+                ctx.functions_analysed.add(f.key)
+    m = ctx.index.module(COLL)
+    helpers = set()
+    for name, f in m.functions.items():
+        nd = getattr(f, "node", None)
+        if not isinstance(nd, ast.FunctionDef):
+            continue
+        env = _env_of(nd)
+        for c in calls_in(nd):
+            if isinstance(c.func, ast.Attribute) and c.func.attr in adapter_caps and _is_adapter(c.func.value, env):
+                helpers.add(name)
+                ctx.functions_analysed.add(f.key)
+    ctx.require(len(impl_hooks) >= 3 and len(adapter_caps) >= 3 and len(helpers) >= 3,
+                f"capture chain of instrumented collections not understood (impl hooks {sorted(impl_hooks)}, adapter {sorted(adapter_caps)}, helpers {sorted(helpers)})")
+    return impl_hooks, adapter_caps, helpers
+
+
+def _env_of(fn):
+    from ._helpers_rob_f2 import env_of
+    return env_of(fn)
+
+
+def _is_adapter(e, env, depth=3) -> bool:
+    """`<x>._sa_adapter`, or a local some binding of which is that"""
+    if isinstance(e, ast.Attribute) and e.attr == "_sa_adapter":
+        return True
+    if isinstance(e, ast.Name) and depth > 0:
+        return any(d is not None and _is_adapter(d, env, depth - 1) for d in env.get(e.id, []))
+    return False
+
+
+def _collection_wrappers(ctx):
+    """[(factory FuncInfo, decorator FunctionDef | None, wrapper FunctionDef, underlying-callable parameter name)]: a function nested in
+    a function of orm/collections.py that calls one of the enclosing function's parameters (the method it wraps)."""
+    m = ctx.index.module(COLL)
+    out = []
+
+    def scan(outer, fac):
+        params = {a.arg for a in outer.args.args}
+        for st in outer.body:
+            if not isinstance(st, ast.FunctionDef):
+                continue
+            called = [c.func.id for c in calls_in(st) if isinstance(c.func, ast.Name) and c.func.id in params
+                      and c.func.id not in {a.arg for a in st.args.args}]
+            if called:
+                out.append((fac, outer if outer is not fac.node else None, st, called[0]))
+            else:
+                scan(st, fac)
+
+    for name, f in sorted(m.functions.items()):
+        nd = getattr(f, "node", None)
+        if isinstance(nd, ast.FunctionDef):
+            scan(nd, f)
+    return out
+
+
+@R.rule("C36-R6", floor=12, template="T-PATH",
+        desc="the original of a collection is snapshotted before the collection changes: in every instrumentation wrapper of "
+             "orm/collections.py (the list/set/dict decorator factories and _instrument_membership_mutator) no path runs the "
+             "wrapped, mutating method first and a capture hook (a helper that reaches CollectionAdapter.fire_*_event -> "
+             "_CollectionAttributeImpl.fire_*_event -> _modified_event(collection=True), which copies the LIVE collection) only "
+             "afterwards -- the pop family captures through the pre-remove hook before the call")
+def r6(ctx):
+    from ._helpers_rob_f2 import by_name, inline_local_calls
+    impl_hooks, adapter_caps, helpers = _capture_chain(ctx)
+    m = ctx.index.module(COLL)
+    adapter = ctx.index.cls(f"{COLL}::CollectionAdapter")
+    # names that can be the target of `getattr(adapter, <hook name>)`: string constants of the module that name a capture method
+    dyn_names = sorted({n.value for n in ast.walk(m.tree) if isinstance(n, ast.Constant) and isinstance(n.value, str) and n.value in adapter_caps})
+    wrappers = _collection_wrappers(ctx)
+    ctx.require(len(wrappers) >= 12, f"only {len(wrappers)} instrumentation wrappers found in orm/collections.py")
+    keep = ctx.__dict__.setdefault("_c36_wrappers", [])
+    mod_helpers = {k: fi.node for k, fi in m.functions.items() if isinstance(getattr(fi, "node", None), ast.FunctionDef)
+                   and k not in helpers and any(isinstance(c.func, ast.Name) and c.func.id in helpers for c in calls_in(fi.node))}
+    n_inst = 0
+    for fac, deco, w, under in wrappers:
+        ctx.functions_analysed.add(fac.key)
+        siblings = {st.name for st in fac.node.body if isinstance(st, ast.FunctionDef)}
+        closures = {st.name: st for st in fac.node.body if isinstance(st, ast.FunctionDef)
+                    and not any(isinstance(x, ast.FunctionDef) for x in st.body)}
+        closures.pop(w.name, None)
+
+        def table(nm, closures=closures):
+            return closures.get(nm) or mod_helpers.get(nm)
+
+        wi, _n = inline_local_calls(w, by_name(table))
+        keep.append(wi)
+        env = _env_of(wi)
+        self_p = wi.args.args[0].arg if wi.args.args else None
+        g = ctx.cfg(wi)
+
+        def kind(call):
+            fn_ = call.func
+            if isinstance(fn_, ast.Name):
+                if fn_.id == under:
+                    return "U"
+                if fn_.id in helpers:
+                    return "K"
+            if isinstance(fn_, ast.Attribute):
+                if fn_.attr in adapter_caps and _is_adapter(fn_.value, env):
+                    return "K"
+                # an instrumented sibling applied to the same collection captures before it mutates
+                if self_p and isinstance(fn_.value, ast.Name) and fn_.value.id == self_p and deco is not None and fn_.attr in siblings:
+                    return "K"
+            if isinstance(fn_, ast.Call) and isinstance(fn_.func, ast.Name) and fn_.func.id == "getattr" and len(fn_.args) >= 2 \
+                    and _is_adapter(fn_.args[0], env):
+                a1 = fn_.args[1]
+                if isinstance(a1, ast.Constant):
+                    return "K" if a1.value in adapter_caps else None
+                return "K" if dyn_names else None
+            return None
+
+        U, K = set(), set()
+        for n in g.nodes:
+            st = n.stmt
+            if st is None or not isinstance(st, ast.stmt) or n.kind not in ("stmt", "test", "for"):
+                continue
+            from ..astutil import own_exprs
+            for part in own_exprs(st):
+                for c in calls_in(part):
+                    k = kind(c)
+                    if k == "U":
+                        U.add(n.id)
+                    elif k == "K":
+                        K.add(n.id)
+                # `self[k] = v` / `del self[k]` delegate to the instrumented __setitem__ / __delitem__
+                if deco is not None and self_p and isinstance(st, (ast.Assign, ast.Delete, ast.AugAssign)):
+                    tg = st.targets if not isinstance(st, ast.AugAssign) else [st.target]
+                    if any(isinstance(t, ast.Subscript) and isinstance(t.value, ast.Name) and t.value.id == self_p for t in tg):
+                        K.add(n.id)
+        if not U or not K:
+            continue
+        n_inst += 1
+        qual = f"{fac.name}.{deco.name}" if deco is not None else f"{fac.name}.{w.name}"
+        key = f"{COLL}::{qual}:snapshot-before-mutation"
+        loc = f"{m.path}:{w.lineno}"
+        U_only = U - K   # a statement that captures and calls evaluates the capture (an argument) first
+        unguarded = sorted(U_only & g.reachable([g.entry], avoid=sorted(K), edge_ok=no_exc))
+        wit = g.witness(unguarded, sorted(K), edge_ok=no_exc) if unguarded else None
+        ctx.check(wit is None, key,
+                  f"the wrapped method `{under}(...)` can mutate the collection before any hook that records its original, and a capture hook "
+                  f"({', '.join(sorted(helpers | set(dyn_names)))} -> ... -> _modified_event(collection=True)) runs only afterwards: when this is the first "
+                  "change since load/flush, the ALREADY MUTATED collection is copied into committed_state, so history reports no deleted/added member and "
+                  "the flush persists nothing for it",
+                  f"every path to `{under}(...)` that is followed by a capture hook has passed a capture hook before", loc,
+                  g.describe_path(wit) if wit else None)
+    ctx.require(n_inst >= 1, "no instrumentation wrapper with an underlying call and a capture hook found")
+
+
+# ------------------------------------------------------------------------------------------ R7 (str2-p)
+def _flag_table(ctx) -> Dict[str, int]:
+    """{name: int} of orm/base.py::PassiveFlag, composites evaluated."""
+    cls = ctx.index.cls(f"{BASE}::PassiveFlag")
+    tab: Dict[str, int] = {}
+    for st in cls.node.body:
+        if isinstance(st, ast.Assign) and len(st.targets) == 1 and isinstance(st.targets[0], ast.Name):
+            must, may = _flag_eval(st.value, tab, {})
+            ctx.require(must == may, f"PassiveFlag.{st.targets[0].id} is not a constant expression")
+            tab[st.targets[0].id] = must
+    ctx.require("LOAD_AGAINST_COMMITTED" in tab and "CALLABLES_OK" in tab and len(tab) >= 10, "orm/base.py::PassiveFlag members not understood")
+    return tab
+
+
+_ALL = (1 << 16) - 1
+
+
+def _flag_eval(e, tab, env, depth=4):
+    """(bits surely set, bits possibly set) of a PassiveFlag expression; unknown names may be anything."""
+    if isinstance(e, ast.Constant) and isinstance(e.value, int):
+        return e.value, e.value
+    if isinstance(e, (ast.Name, ast.Attribute)):
+        nm = e.id if isinstance(e, ast.Name) else e.attr
+        if isinstance(e, ast.Name) and depth > 0 and len(env.get(nm, [])) == 1 and env[nm][0] is not None:
+            return _flag_eval(env[nm][0], tab, env, depth - 1)
+        if nm in tab and not (isinstance(e, ast.Name) and nm in env):
+            return tab[nm], tab[nm]
+        return 0, _ALL
+    if isinstance(e, ast.BinOp):
+        (ma, ya), (mb, yb) = _flag_eval(e.left, tab, env, depth), _flag_eval(e.right, tab, env, depth)
+        if isinstance(e.op, ast.BitOr):
+            return ma | mb, ya | yb
+        if isinstance(e.op, ast.BitAnd):
+            return ma & mb, ya & yb
+        if isinstance(e.op, ast.BitXor):
+            return (ma & ~yb) | (mb & ~ya), (ya | yb) & ~(ma & mb)
+    if isinstance(e, ast.UnaryOp) and isinstance(e.op, ast.Invert):
+        ma, ya = _flag_eval(e.operand, tab, env, depth)
+        return _ALL & ~ya, _ALL & ~ma
+    if isinstance(e, ast.IfExp):
+        (ma, ya), (mb, yb) = _flag_eval(e.body, tab, env, depth), _flag_eval(e.orelse, tab, env, depth)
+        return ma & mb, ya | yb
+    return 0, _ALL
+
+
+#: loader entry points of an attribute implementation: method name -> (positional index of `passive` without self, keyword)
+LOADER_CALLS = {"get": (2, "passive"), "_fire_loader_callables": (2, "passive")}
+
+
+@R.rule("C36-R7", floor=6, template="T-SIBLING/T-FLOW",
+        desc="the original value of a reference to other mapped objects (uses_objects implementations) that is obtained through a loader "
+             "callable -- self.get(.., passive) / self._fire_loader_callables(.., passive) with CALLABLES_OK -- and then recorded as the "
+             "attribute's original (handed to _modified_event as `previous`, directly or through a fire_* hook, or to "
+             "History.from_object_attribute as `original`) is loaded with LOAD_AGAINST_COMMITTED: the committed value is the object the "
+             "COMMITTED foreign/primary key points to, not the one a pending, unflushed key change points to")
+def r7(ctx):
+    from ._helpers_rob_f2 import dominating_guards, atoms as _f2_atoms
+    tab = _flag_table(ctx)
+    LAC, CALLABLES = tab["LOAD_AGAINST_COMMITTED"], tab["CALLABLES_OK"]
+    fam = _impl_family(ctx)
+    # hooks whose parameter is recorded as `previous`: {method name: positional index (without self)}
+    hooks: Dict[str, int] = {}
+    for cls in fam:
+        for mname, f in cls.methods.items():
+            for c in calls_in(f.node):
+                if isinstance(c.func, ast.Attribute) and c.func.attr == "_modified_event" and len(c.args) > 2 \
+                        and isinstance(c.args[2], ast.Name) and c.args[2].id in f.params[1:]:
+                    hooks[mname] = f.params.index(c.args[2].id) - 1
+    n_inst = 0
+    for cls in sorted(fam, key=lambda c: c.name):
+        owner, vals = ctx.index.class_attr_nodes(cls, "uses_objects")
+        if not (vals and all(_const_true(v) for v in vals)):
+            continue
+        for mname, f in sorted(cls.methods.items()):
+            if f.type_only or f.is_overload:
+                continue
+            # private helpers of the implementation are read as part of the method (an extracted `self._previous(state, dict_)`)
+            f = nf(ctx, f, keep=tuple(LOADER_CALLS) + tuple(hooks) + ("_modified_event",), alias=None)
+            self_p = f.params[0] if f.params else "self"
+            recorded = set()
+            for c in calls_in(f.node):
+                fn_ = c.func
+                if not isinstance(fn_, ast.Attribute):
+                    continue
+                if fn_.attr == "_modified_event" and len(c.args) > 2 and isinstance(c.args[2], ast.Name):
+                    recorded.add(c.args[2].id)
+                elif fn_.attr in hooks and dotted(fn_.value) == self_p and len(c.args) > hooks[fn_.attr] and isinstance(c.args[hooks[fn_.attr]], ast.Name):
+                    recorded.add(c.args[hooks[fn_.attr]].id)
+                elif fn_.attr.startswith("from_") and fn_.attr.endswith("_attribute"):
+                    v = kw(c, "original")
+                    if isinstance(v, ast.Name):
+                        recorded.add(v.id)
+            if not recorded:
+                continue
+            env = _env_of(f.node)
+            # `old = previous`: the recorded local may be a copy of the local the fetch was bound to
+            for _ in range(3):
+                recorded |= {d.id for nme in list(recorded) for d in env.get(nme, []) if isinstance(d, ast.Name) and d.id not in f.params}
+            g = ctx.cfg(f)
+            pm = f.pm if hasattr(f, "pm") else f.module.parents()
+            menv = {k: v for k, v in f.module.assigns.items() if k not in env}
+            fetches = []
+            for name, v, s in name_stores(f.node):
+                if name not in recorded or not isinstance(v, ast.Call) or not isinstance(v.func, ast.Attribute):
+                    continue
+                if v.func.attr not in LOADER_CALLS or dotted(v.func.value) != self_p:
+                    continue
+                guards = frozenset(("" if p else "not ") + a for t, pol in dominating_guards(g, pm, v) for a, p in _f2_atoms(t, pol, env, expand=True))
+                fetches.append((name, v, guards))
+            common = frozenset.intersection(*[gs for _, _, gs in fetches]) if fetches else frozenset()
+            seen_keys: Dict[str, int] = {}
+            for name, v, guards in fetches:
+                pos, kwn = LOADER_CALLS[v.func.attr]
+                pe = v.args[pos] if len(v.args) > pos else kw(v, kwn)
+                if pe is None:
+                    callee = ctx.index.resolve_method(cls, v.func.attr)
+                    ctx.require(callee is not None and kwn in func_defaults(callee.node), f"{f.key}: default of `{kwn}` of {v.func.attr} not found")
+                    pe = func_defaults(callee.node)[kwn]
+                must, may = _flag_eval(pe, tab, {**menv, **env})
+                # siblings inside one method are told apart by the branch outcomes they do not share
+                own = sorted(guards - common) if len(fetches) > 1 else []
+                base = f"{f.key}:original-loaded-against-committed" + (f"[{' and '.join(own)}]" if own else "")
+                seen_keys[base] = seen_keys.get(base, 0) + 1
+                key = base if seen_keys[base] == 1 else f"{base}:{seen_keys[base] - 1}"
+                n_inst += 1
+                loc = f"{f.module.path}:{v.lineno}"
+                if not may & CALLABLES:
+                    ctx.ok(key, f"`{unparse(pe)[:80]}` never invokes a loader callable")
+                    continue
+                ctx.check(bool(must & LAC), key,
+                          f"`{name} = {unparse(v.func)}(.., {unparse(pe)[:90]})` may invoke the relationship's loader callable WITHOUT LOAD_AGAINST_COMMITTED, and `{name}` is then "
+                          "recorded as the attribute's original: with a pending, unflushed change of the foreign/primary key the loader resolves the object(s) the NEW "
+                          "key points to, which never were the committed value -- history reports the wrong `deleted` members, the wrong parent's backref/collection is "
+                          "updated and the flush de-associates / orphan-deletes the wrong rows",
+                          f"loaded with LOAD_AGAINST_COMMITTED ({unparse(pe)[:80]})", loc)
+    ctx.require(n_inst >= 1, "no loader-obtained original found in the object-reference implementations")
+
+
 # ------------------------------------------------------------------------------------------ self-test battery
 # R1
 R.mutant("capture-guard-dropped", STATE, sub("            if attr.key not in self.committed_state or is_userland:\n", "            if attr.key in dict_ or is_userland:\n"), "C36-R1")
@@ -1267,3 +1587,96 @@ R.mutant("alias-insertion-outside-owners", "orm/persistence.py",
 R.mutant("scalar-history-membership-form-inverted", ATTR,
          sub("        original = state.committed_state.get(attribute.key, _NO_HISTORY)\n\n        deleted: Union[Tuple[()], List[Any]]\n",
              "        committed_state = state.committed_state\n        if attribute.key not in committed_state:\n            original = NO_VALUE\n        else:\n            original = committed_state[attribute.key]\n\n        deleted: Union[Tuple[()], List[Any]]\n"), "C36-R3")
+
+
+# ------------------------------------------------------------------------------------------ str2-p: R6 / R7 self-test inputs
+_DICT_POP = ("        def pop(self, key, default=NO_ARG):\n            __before_pop(self)\n            _to_del = key in self\n            if default is NO_ARG:\n"
+             "                item = fn(self, key)\n            else:\n                item = fn(self, key, default)\n            if _to_del:\n"
+             "                __del(self, item, None, key)\n            return item\n")
+# R6 breaking: essence of round-2 seed C36_1 (the pre-remove capture deferred until something was removed)
+R.mutant("dict-pop-capture-after-removal", COLL,
+         sub(_DICT_POP,
+             "        def pop(self, key, default=NO_ARG):\n            _to_del = key in self\n            if default is NO_ARG:\n"
+             "                item = fn(self, key)\n            else:\n                item = fn(self, key, default)\n            if _to_del:\n"
+             "                __before_pop(self)\n                __del(self, item, None, key)\n            return item\n"), "C36-R6")
+R.mutant("set-pop-pre-remove-hook-dropped", COLL,
+         sub("        def pop(self):\n            __before_pop(self)\n            item = fn(self)\n            # for set in particular",
+             "        def pop(self):\n            item = fn(self)\n            # for set in particular"), "C36-R6")
+R.mutant("list-pop-capture-only-when-non-empty-after-call", COLL,
+         sub("        def pop(self, index=-1):\n            __before_pop(self)\n            item = fn(self, index)\n            __del(self, item, None, index)\n",
+             "        def pop(self, index=-1):\n            item = fn(self, index)\n            if len(self):\n                __before_pop(self)\n            __del(self, item, None, index)\n"), "C36-R6")
+# the capture moved into a closure that is called after the removal: the rule reads the closure as part of the wrapper
+R.mutant("dict-popitem-capture-in-closure-after-call", COLL, chain(
+    sub("        def popitem(self):\n            __before_pop(self)\n            item = fn(self)\n            __del(self, item[1], None, 1)\n",
+        "        def popitem(self):\n            item = fn(self)\n            _announce_pop(self, item[1])\n"),
+    sub("    def popitem(fn):\n        def popitem(self):\n",
+        "    def _announce_pop(collection, member):\n        __before_pop(collection)\n        __del(collection, member, None, 1)\n\n    def popitem(fn):\n        def popitem(self):\n"),
+    sub("        _tidy(__ior__)\n        return __ior__\n\n    l = locals().copy()\n    l.pop(\"_tidy\")\n    return l\n\n\n_set_binop_bases",
+        "        _tidy(__ior__)\n        return __ior__\n\n    l = locals().copy()\n    l.pop(\"_tidy\")\n    l.pop(\"_announce_pop\")\n    return l\n\n\n_set_binop_bases")), "C36-R6")
+# R6 benign: same wrapper, other shapes
+R.mutant("benign-dict-pop-membership-first-inverted-default-test", COLL,
+         sub(_DICT_POP,
+             "        def pop(self, key, default=NO_ARG):\n            was_member = key in self\n            __before_pop(self)\n            if default is not NO_ARG:\n"
+             "                removed = fn(self, key, default)\n            else:\n                removed = fn(self, key)\n            if not was_member:\n                return removed\n"
+             "            __del(self, removed, None, key)\n            return removed\n"), None)
+R.mutant("benign-dict-popitem-hooks-in-closures", COLL, chain(
+    sub("        def popitem(self):\n            __before_pop(self)\n            item = fn(self)\n            __del(self, item[1], None, 1)\n",
+        "        def popitem(self):\n            _prepare_pop(self)\n            item = fn(self)\n            _announce_pop(self, item[1])\n"),
+    sub("    def popitem(fn):\n        def popitem(self):\n",
+        "    def _prepare_pop(collection):\n        __before_pop(collection)\n\n    def _announce_pop(collection, member):\n        __del(collection, member, None, 1)\n\n    def popitem(fn):\n        def popitem(self):\n"),
+    sub("        _tidy(__ior__)\n        return __ior__\n\n    l = locals().copy()\n    l.pop(\"_tidy\")\n    return l\n\n\n_set_binop_bases",
+        "        _tidy(__ior__)\n        return __ior__\n\n    l = locals().copy()\n    l.pop(\"_tidy\")\n    l.pop(\"_prepare_pop\")\n    l.pop(\"_announce_pop\")\n    return l\n\n\n_set_binop_bases")), None)
+R.mutant("benign-list-pop-prepare-in-module-function", COLL, chain(
+    sub("        def pop(self, index=-1):\n            __before_pop(self)\n            item = fn(self, index)\n",
+        "        def pop(self, index=-1):\n            _prepare_pop(self)\n            popped = fn(self, index)\n            item = popped\n"),
+    sub("def _list_decorators() -> Dict[str, Callable[[_FN], _FN]]:\n",
+        "def _prepare_pop(collection):\n    \"\"\"record the original of the collection before a pop.\"\"\"\n    __before_pop(collection)\n\n\ndef _list_decorators() -> Dict[str, Callable[[_FN], _FN]]:\n")), None)
+R.mutant("benign-list-remove-membership-flag-early-return", COLL,
+         sub("        def remove(self, value, _sa_initiator=None):\n            # testlib.pragma exempt:__eq__\n            if value in self:\n                __del(self, value, _sa_initiator, NO_KEY)\n            # testlib.pragma exempt:__eq__\n            fn(self, value)\n",
+             "        def remove(self, value, _sa_initiator=None):\n            present = value in self\n            if not present:\n                fn(self, value)\n                return\n            __del(self, value, _sa_initiator, NO_KEY)\n            fn(self, value)\n"), None)
+# R7 breaking: essence of round-2 seed C36_2 (one sibling fetch of the old value loses LOAD_AGAINST_COMMITTED) and variants
+_DEL_FETCH = ("    def delete(self, state: InstanceState[Any], dict_: _InstanceDict) -> None:\n        if self.dispatch._active_history:\n            old = self.get(\n                state,\n                dict_,\n"
+              "                passive=PASSIVE_ONLY_PERSISTENT\n                | NO_AUTOFLUSH\n                | LOAD_AGAINST_COMMITTED,\n            )\n        else:\n            old = self.get(\n                state,\n                dict_,\n"
+              "                passive=PASSIVE_NO_FETCH ^ INIT_OK\n                | LOAD_AGAINST_COMMITTED\n                | NO_RAISE,\n            )\n\n        self.fire_remove_event(state, dict_, old, self._remove_token)\n")
+R.mutant("object-delete-old-loaded-against-pending-fk", ATTR,
+         sub(_DEL_FETCH, _DEL_FETCH.replace("                passive=PASSIVE_NO_FETCH ^ INIT_OK\n                | LOAD_AGAINST_COMMITTED\n                | NO_RAISE,\n",
+                                            "                passive=PASSIVE_NO_FETCH ^ INIT_OK | NO_RAISE,\n")), "C36-R7")
+R.mutant("object-delete-active-history-flag-through-local", ATTR,
+         sub(_DEL_FETCH, _DEL_FETCH.replace("        if self.dispatch._active_history:\n            old = self.get(\n                state,\n                dict_,\n                passive=PASSIVE_ONLY_PERSISTENT\n                | NO_AUTOFLUSH\n                | LOAD_AGAINST_COMMITTED,\n            )\n",
+                                            "        if self.dispatch._active_history:\n            load_flags = PASSIVE_ONLY_PERSISTENT | NO_AUTOFLUSH\n            old = self.get(state, dict_, passive=load_flags)\n")), "C36-R7")
+R.mutant("object-set-flag-xored-away", ATTR,
+         sub("                passive=PASSIVE_NO_FETCH ^ INIT_OK\n                | LOAD_AGAINST_COMMITTED\n                | NO_RAISE,\n            )\n\n        if (\n            check_old is not None\n",
+             "                passive=(\n                    PASSIVE_NO_FETCH | LOAD_AGAINST_COMMITTED | NO_RAISE\n                )\n                ^ (INIT_OK | LOAD_AGAINST_COMMITTED),\n            )\n\n        if (\n            check_old is not None\n"), "C36-R7")
+R.mutant("deferred-history-original-loaded-against-pending-fk", ATTR,
+         sub("                    PASSIVE_ONLY_PERSISTENT\n                    | NO_AUTOFLUSH\n                    | LOAD_AGAINST_COMMITTED\n                    | NO_RAISE\n                    | DEFERRED_HISTORY_LOAD\n",
+             "                    PASSIVE_ONLY_PERSISTENT\n                    | NO_AUTOFLUSH\n                    | NO_RAISE\n                    | DEFERRED_HISTORY_LOAD\n"), "C36-R7")
+# R7 benign
+R.mutant("benign-object-delete-flags-in-locals-arms-swapped", ATTR,
+         sub(_DEL_FETCH,
+             "    def delete(self, state: InstanceState[Any], dict_: _InstanceDict) -> None:\n        wants_history = self.dispatch._active_history\n        if not wants_history:\n"
+             "            quiet = PASSIVE_NO_FETCH ^ INIT_OK | NO_RAISE\n            previous = self.get(\n                state, dict_, passive=quiet | LOAD_AGAINST_COMMITTED\n            )\n        else:\n"
+             "            loading = PASSIVE_ONLY_PERSISTENT | NO_AUTOFLUSH | LOAD_AGAINST_COMMITTED\n            previous = self.get(state, dict_, passive=loading)\n        old = previous\n\n"
+             "        self.fire_remove_event(state, dict_, old, self._remove_token)\n"), None)
+R.mutant("benign-object-delete-one-fetch-conditional-flags", ATTR,
+         sub(_DEL_FETCH,
+             "    def delete(self, state: InstanceState[Any], dict_: _InstanceDict) -> None:\n        old = self.get(\n            state,\n            dict_,\n            passive=(\n"
+             "                PASSIVE_ONLY_PERSISTENT | NO_AUTOFLUSH | LOAD_AGAINST_COMMITTED\n                if self.dispatch._active_history\n"
+             "                else PASSIVE_NO_FETCH ^ INIT_OK | LOAD_AGAINST_COMMITTED | NO_RAISE\n            ),\n        )\n\n"
+             "        self.fire_remove_event(state, dict_, old, self._remove_token)\n"), None)
+R.mutant("benign-object-delete-fetch-extracted-to-method-module-constants", ATTR, chain(
+    sub(_DEL_FETCH,
+        "    def _committed_reference(\n        self, state: InstanceState[Any], dict_: _InstanceDict\n    ) -> Any:\n        if self.dispatch._active_history:\n            return self.get(state, dict_, passive=_OLD_REF_ACTIVE)\n"
+        "        return self.get(state, dict_, passive=_OLD_REF_QUIET)\n\n"
+        "    def delete(self, state: InstanceState[Any], dict_: _InstanceDict) -> None:\n        old = self._committed_reference(state, dict_)\n\n"
+        "        self.fire_remove_event(state, dict_, old, self._remove_token)\n"),
+    sub("class _ScalarObjectAttributeImpl(_ScalarAttributeImpl):\n",
+        "_OLD_REF_ACTIVE = PASSIVE_ONLY_PERSISTENT | NO_AUTOFLUSH | LOAD_AGAINST_COMMITTED\n_OLD_REF_QUIET = (\n    PASSIVE_NO_FETCH ^ INIT_OK | LOAD_AGAINST_COMMITTED | NO_RAISE\n)\n\n\nclass _ScalarObjectAttributeImpl(_ScalarAttributeImpl):\n")), None)
+# the extracted helper must still be judged
+R.mutant("object-delete-extracted-fetch-without-flag", ATTR, chain(
+    sub(_DEL_FETCH,
+        "    def _committed_reference(\n        self, state: InstanceState[Any], dict_: _InstanceDict\n    ) -> Any:\n        if self.dispatch._active_history:\n            return self.get(state, dict_, passive=_OLD_REF_ACTIVE)\n"
+        "        return self.get(state, dict_, passive=_OLD_REF_QUIET)\n\n"
+        "    def delete(self, state: InstanceState[Any], dict_: _InstanceDict) -> None:\n        old = self._committed_reference(state, dict_)\n\n"
+        "        self.fire_remove_event(state, dict_, old, self._remove_token)\n"),
+    sub("class _ScalarObjectAttributeImpl(_ScalarAttributeImpl):\n",
+        "_OLD_REF_ACTIVE = PASSIVE_ONLY_PERSISTENT | NO_AUTOFLUSH | LOAD_AGAINST_COMMITTED\n_OLD_REF_QUIET = PASSIVE_NO_FETCH ^ INIT_OK | NO_RAISE\n\n\nclass _ScalarObjectAttributeImpl(_ScalarAttributeImpl):\n")), "C36-R7")
